@@ -189,11 +189,13 @@ def run(ctx):
     games = [(gen_games.FIG55, gen_games.FIG55_META)] + sc.corpus_games() + gen_games.pattern_games(3)
     games += gen_games.mixed_games(ctx.rng, 260 if ctx.quick else 5000, 3, 9, styles=("stopping", "exact", "ties"))
     games += gen_games.extra_families(ctx.rng, games, 12 if ctx.quick else 150)
+    games += gen_games.offset_tie_games()
     games += gen_games.minreach_games()
     recs = sc.run_games(ctx, games, limit=10, tag="c14")
     sc.correspondence(ctx, recs, "cmp_diag", "c14")
     sc.padding_check(ctx, recs, ("erm", "ermr"), 40 if ctx.quick else 400, "c14")
     sc.loglevel_check(ctx, recs, ("erm", "ermr"), 25 if ctx.quick else 250, "c14")
+    sc.optimize_check(ctx, recs, ("erm", "ermr"), 25 if ctx.quick else 250, "c14")
     sc.resolve_check(ctx, recs, ("erm", "ermr"), 30 if ctx.quick else 300, "c14")
     check(ctx, recs)
     residual_check(ctx, recs)
